@@ -11,15 +11,15 @@ for d in out/*/; do
   if ! git apply "out/$k/patch.diff" 2>>"$res"; then echo "apply=FAIL" >> "$res"; continue; fi
   echo "apply=ok" >> "$res"
   if [ "$prop" = "C19" ] || [ "$prop" = "C18" ]; then
-    t=$(cargo test --offline -p rink-sandbox --lib 2>&1 | grep -E "^test result|FAILED|error(\[|:)" | sort | uniq -c | tr '\n' ';')
+    t=$(timeout 1200 cargo test --offline -p rink-sandbox --lib 2>&1 | grep -E "^test result|FAILED|error(\[|:)" | sort | uniq -c | tr '\n' ';')
   elif [ "$prop" = "C20" ]; then
-    t=$(cargo test --offline -p rink 2>&1 | grep -E "^test result|FAILED|error(\[|:)" | sort | uniq -c | tr '\n' ';')
+    t=$(timeout 1200 cargo test --offline -p rink 2>&1 | grep -E "^test result|FAILED|error(\[|:)" | sort | uniq -c | tr '\n' ';')
   else
-    t=$(cargo test --offline -p rink-core --all-features 2>&1 | grep -E "^test result|FAILED|error(\[|:)" | sort | uniq -c | tr '\n' ';')
+    t=$(timeout 1200 cargo test --offline -p rink-core --all-features 2>&1 | grep -E "^test result|FAILED|error(\[|:)" | sort | uniq -c | tr '\n' ';')
   fi
   echo "tests_with_patch=$t" >> "$res"
-  (cd "out/$k" && sh ./demo.sh > demo_with.log 2>&1); echo "demo_with_patch_rc=$?" >> "$res"
+  (cd "out/$k" && bash ./demo.sh > demo_with.log 2>&1); echo "demo_with_patch_rc=$?" >> "$res"
   git checkout -q -- . ; git clean -fdq -e out
-  (cd "out/$k" && sh ./demo.sh > demo_without.log 2>&1); echo "demo_without_patch_rc=$?" >> "$res"
+  (cd "out/$k" && bash ./demo.sh > demo_without.log 2>&1); echo "demo_without_patch_rc=$?" >> "$res"
 done
 git checkout -q -- . ; git clean -fdq -e out
